@@ -458,6 +458,9 @@ func (e *Eng) havocAllHeaps(st *State, keep func(string) bool) {
 		if keep != nil && keep(k) {
 			continue
 		}
+		if e.stableKey(k) {
+			continue // a `stable` package-level variable: written only by flag parsing (ground:stable-*)
+		}
 		e.heapHavoc(st, k)
 	}
 }
@@ -985,4 +988,17 @@ func (e *Eng) havocGroup(st *State, f func()) {
 	st.inGroup, st.groupFr = true, ""
 	defer func() { st.inGroup, st.groupFr = false, "" }()
 	f()
+}
+
+// stableKey: the heap key of a package-level variable of package main declared `stable`.
+func (e *Eng) stableKey(k string) bool {
+	if e.u == nil || e.u.cs == nil || len(e.u.cs.Stable) == 0 || !strings.HasPrefix(k, "G:main.") {
+		return false
+	}
+	name := strings.TrimPrefix(k, "G:main.")
+	if i := strings.Index(name, ":"); i >= 0 {
+		name = name[:i]
+	}
+	_, ok := e.u.cs.Stable[name]
+	return ok
 }
